@@ -84,6 +84,11 @@ CLAIMS = {
   text="Exploration: well-typed programs (accessor chains over ten node/value types with nullability tracking, First/Last/Length/Only/Combine/NodesWithTagPath, objects, variables, all six operators) are generated as ASTs, printed, evaluated by the engine on random family graphs and compared as normalised JSON with a reference interpreter written with ordinary loops over direct Go API calls; determinism of re-parsing and engine reuse; metamorphic relations (variable inlining, E | Length, Combine(E,E) | Length, First/Last length and partition at k in {0,1,n-1,n,n+1}); every ordered pair of 24 constants under all six operators against the documented comparison rule, negation and trichotomy (exhaustive). One finding class (C16-F1: First/Last of an empty list) is excluded and counted.",
   note="Trusted: the reference interpreter (about 150 lines) and the typed accessor table; numeric = [0-9]+(.[0-9]+)?; null and [] are the same empty result; clock-reading accessors are not generated.",
   design="6.16"),
+ "C17": dict(
+  technique="marker-based PBT (rapid): unique marker tokens for every private string, marker search over all generated files + differential publishing (A vs A' differing only in living people's data) + positive control",
+  text="Exploration: family graphs in which every name part, place and note is a unique marker, with living people in every role and every way of being living/dead that the code distinguishes (DEAT with/without date, age rule, no dates, burial without death), far from the 100-year boundary and cross-checked against IsLiving(); visibility hide/placeholder x page-group masks x jobs. Oracle: no file name or content (case-insensitive) contains a name marker that belongs to living people only; every non-living person has a page, is listed and shows their name; pages stay well formed; in hide mode two documents that differ only in the living people's names, dates, places and notes publish byte-identical files.",
+  note="Living/dead is fixed by the generator with fixed years (valid while today is between 2004 and 2100). Markers shared with a non-living person legitimately appear and are not searched for.",
+  design="6.17"),
  "C18": dict(
   technique="taint-tracking PBT (rapid): unique tokens carrying < > \" ' & in every value kind, searched for in unescaped form in every output; HTML tokenizer / well-nestedness oracle with a benign control",
   text="Exploration: documents in which ~40 value kinds (all name parts, sex, event values, dates, places, notes at three levels, identifiers, marriage/divorce data, source titles and properties incl. nested ones, optionally pointers) carry a unique token are published in every visibility mode with random page-group masks, rendered as diff reports (show x sort) against an edited copy, and written by the HTML query formatter. Oracle: at every occurrence of a token id the bytes up to its closing marker contain no raw < or >, no bare &, no raw double quote inside attribute values and no raw single quote inside event handlers; every page tokenises and is well nested (hand-written tokenizer); the same document with benign values is the control that attributes structural problems to content.",
